@@ -11,6 +11,7 @@
 import ASV.Proofs.ProtoRules
 import ASV.Proofs.Components
 import ASV.Proofs.ProtoExtend
+import ASV.Proofs.ProtoRing
 namespace ASV.C03
 open ASV ASV.Rules ASV.Proto ASV.Chains ASV.ChainSweep
 
@@ -133,6 +134,114 @@ theorem protoclusters_of_rule_linear (r : Rec) (hlin : r.circular = false) (rule
       refine ⟨⟨rule.name, .simple p, .simple ⟨max 0 (p.lo - rule.nbhd), min (p.hi + rule.nbhd) r.len, .fwd⟩⟩, ?_,
         rfl, p, rfl, hcov, ⟨m1, hm1, e1⟩, ⟨m2, hm2, e2⟩, rfl⟩
       simp only [extendArea_line r hlin p rule.nbhd true, bind, Except.bind]
+      exact mkPC_simple _ _ _ (by simp only; omega) (by simp only; omega))
+    hpaired.with_mem_right
+  refine ⟨groups, pcs, ?_, hpart, hp2⟩
+  simp only [clustersOfRule, hfind, bind, Except.bind]
+  exact hpcs
+
+/-! ### circular records
+
+  `InnerArc L d A B`: the arc `[A, B)` of the ring of length `L` keeps the distance `d` from the origin
+  on both sides (`d ≤ A`, `B + d ≤ L`) and spans at most half of the ring (`2·(B − A) ≤ L`).
+  `GeneIn L A B l`: `GeneOK` and the gene lies in `[A, B)`.  Under these hypotheses no window wraps, the
+  cap of `_extend_area_location` does not bite and `connect_locations` never goes over the origin.
+  The full statements (any position on the ring, origin-spanning anchors, chains closing over the origin
+  through `merge_over_origin`) are `def`s below; what is missing for them is said in design/C03.md. -/
+
+/-- the full ring statement (not proved): on every circular record the cores after
+    `clustersOfRule` + `mergeOverOrigin` correspond to the maximal chains of the ring relation -/
+def CoresAreChainsRing : Prop :=
+  ∀ (r : Rec) (rules : List RuleM) (rule : RuleM) (anchors : List Gene), r.circular = true → rule ∈ rules →
+    0 ≤ rule.cutoff → 0 ≤ rule.nbhd →
+    (∀ g ∈ r.genes, g.loc.parts ≠ [] ∧ g.loc.Inside r.len) →
+    ∃ found merged groups, clustersOfRule r rule anchors = .ok found ∧ Proto.mergeOverOrigin r rules found = .ok merged ∧
+      IsChainPartition (fun a b => nearB r.len rule.cutoff a b = true)
+        ((r.genes.filter fun g => anchors.contains g.id).map (·.loc)) groups ∧
+      Paired (fun (pc : PC) g => ∀ m ∈ g, ∀ i, (spanLoc r.len m).mem i = true → pc.core.mem i = true) merged groups
+
+/-- **Cores are the maximal chains (circular record, anchors in an inner arc)** — `_partial`: proved
+    for anchoring genes inside an `InnerArc` for the rule's cutoff.  The chain relation is the *ring*
+    relation `nearB r.len cutoff` (shorter way round); the conclusion is that of `cores_are_chains_linear`. -/
+theorem cores_are_chains_ring_partial (r : Rec) (hcirc : r.circular = true) (c A B : Int)
+    (harc : InnerArc r.len c A B) (hA : 0 ≤ A) (anchors : List Loc) (hne : anchors ≠ [])
+    (hok : ∀ l ∈ anchors, GeneIn r.len A B l) :
+    ∃ (groups : List (List Loc)) (cores : List Loc),
+      findCores r c anchors = .ok cores ∧
+      IsChainPartition (fun a b => nearB r.len c a b = true) anchors groups ∧
+      Paired (fun core g => ∃ p, core = Loc.simple p ∧
+        (∀ m ∈ g, p.lo ≤ m.start ∧ m.end ≤ p.hi) ∧ (∃ m ∈ g, m.start = p.lo) ∧ (∃ m ∈ g, m.end = p.hi))
+        cores groups := by
+  have hc := harc.dpos
+  have hB : B ≤ r.len := by have := harc.right; omega
+  obtain ⟨sorted, cores, hperm, hsorted, hfind, hmap, hsimple⟩ :=
+    findCores_arc r c A B hc hA hB (flatOps_ring r hcirc c A B harc) anchors hne hok
+  obtain ⟨hpart, hinv⟩ := sweep_is_chain_partition_of (fun a b => nearB r.len c a b = true) c hc anchors sorted
+    hperm hsorted (fun l hl => (hok l hl).ok.start_lt_end)
+    (fun a ha b hb => nearB_ring_inner_iff r.len c A B harc a b (hok a ha) (hok b hb))
+  refine ⟨(sweep Loc.start Loc.end c sorted).map Grp.members, cores, hfind, hpart, ?_⟩
+  refine Paired.map_right Grp.members ?_
+  refine (paired_of_map_eq cores (sweep Loc.start Loc.end c sorted) hmap hsimple hinv).imp ?_
+  rintro core g ⟨hiv, ⟨p, rfl⟩, hg⟩
+  simp only [ivOf, Loc.start, Loc.end, Prod.mk.injEq] at hiv
+  refine ⟨p, rfl, ?_, ?_, ?_⟩
+  · intro m hm
+    have h1 := hg.loMin m hm
+    have h2 := hg.hiMax m hm
+    omega
+  · obtain ⟨m, hm, e⟩ := hg.loAtt
+    exact ⟨m, hm, by omega⟩
+  · obtain ⟨m, hm, e⟩ := hg.hiAtt
+    exact ⟨m, hm, by omega⟩
+
+/-- **The protoclusters of a rule (circular record, anchors in an inner arc)** — `_partial`: the arc keeps
+    both the cutoff and the neighbourhood away from the origin.  Protoclusters ↔ maximal chains of the
+    ring relation, core = smallest span, location = core widened by the neighbourhood on both sides. -/
+theorem protoclusters_of_rule_ring_partial (r : Rec) (hcirc : r.circular = true) (rule : RuleM) (A B : Int)
+    (harcC : InnerArc r.len rule.cutoff A B) (harcN : InnerArc r.len rule.nbhd A B) (hA : 0 ≤ A)
+    (anchors : List Gene) (hne : (r.genes.filter fun g => anchors.contains g.id) ≠ [])
+    (hok : ∀ g ∈ r.genes, anchors.contains g.id = true → GeneIn r.len A B g.loc) :
+    ∃ (groups : List (List Loc)) (pcs : List PC),
+      clustersOfRule r rule anchors = .ok pcs ∧
+      IsChainPartition (fun a b => nearB r.len rule.cutoff a b = true)
+        ((r.genes.filter fun g => anchors.contains g.id).map (·.loc)) groups ∧
+      Paired (fun pc g => pc.rule = rule.name ∧ ∃ p, pc.core = Loc.simple p ∧
+        (∀ m ∈ g, p.lo ≤ m.start ∧ m.end ≤ p.hi) ∧ (∃ m ∈ g, m.start = p.lo) ∧ (∃ m ∈ g, m.end = p.hi) ∧
+        pc.loc = Loc.simple ⟨p.lo - rule.nbhd, p.hi + rule.nbhd, .fwd⟩)
+        pcs groups := by
+  have hok' : ∀ l ∈ (r.genes.filter fun g => anchors.contains g.id).map (·.loc), GeneIn r.len A B l := by
+    intro l hl
+    obtain ⟨g, hg, rfl⟩ := List.mem_map.1 hl
+    simp only [List.mem_filter] at hg
+    exact hok g hg.1 hg.2
+  obtain ⟨groups, cores, hfind, hpart, hpaired⟩ :=
+    cores_are_chains_ring_partial r hcirc rule.cutoff A B harcC hA _ (by simpa using hne) hok'
+  have hgroup : ∀ g ∈ groups, ∀ m ∈ g, GeneIn r.len A B m := by
+    intro g hg m hm
+    apply hok'
+    rw [← hpart.perm.mem_iff]
+    simp only [List.mem_flatten]
+    exact ⟨g, hg, hm⟩
+  have hn := harcN.dpos; have hnl := harcN.left; have hnr := harcN.right
+  obtain ⟨pcs, hpcs, hp2⟩ := mapM_paired
+    (fun core => do
+      let surrounds ← extendArea r core rule.nbhd true
+      mkPC rule.name core surrounds)
+    (S := fun (pc : PC) (g : List Loc) => pc.rule = rule.name ∧ ∃ p, pc.core = Loc.simple p ∧
+        (∀ m ∈ g, p.lo ≤ m.start ∧ m.end ≤ p.hi) ∧ (∃ m ∈ g, m.start = p.lo) ∧ (∃ m ∈ g, m.end = p.hi) ∧
+        pc.loc = Loc.simple ⟨p.lo - rule.nbhd, p.hi + rule.nbhd, .fwd⟩)
+    (by
+      rintro core g ⟨⟨p, rfl, hcov, ⟨m1, hm1, e1⟩, ⟨m2, hm2, e2⟩⟩, hg⟩
+      have a1 := (hgroup g hg m1 hm1).lo
+      have a2 := (hgroup g hg m1 hm1).ok.start_lt_end
+      have a3 := (hgroup g hg m2 hm2).hi
+      have a4 := (hcov m1 hm1).2
+      have e3 : max 0 (p.lo - rule.nbhd) = p.lo - rule.nbhd := by omega
+      have e4 : min (p.hi + rule.nbhd) r.len = p.hi + rule.nbhd := by omega
+      refine ⟨⟨rule.name, .simple p, .simple ⟨p.lo - rule.nbhd, p.hi + rule.nbhd, .fwd⟩⟩, ?_,
+        rfl, p, rfl, hcov, ⟨m1, hm1, e1⟩, ⟨m2, hm2, e2⟩, rfl⟩
+      simp only [extendArea_ring_inner r hcirc A B rule.nbhd harcN p (by omega) (by omega) (by omega) true, e3, e4,
+        bind, Except.bind]
       exact mkPC_simple _ _ _ (by simp only; omega) (by simp only; omega))
     hpaired.with_mem_right
   refine ⟨groups, pcs, ?_, hpart, hp2⟩
@@ -293,6 +402,22 @@ theorem not_droppedOnlyWhenCovered : ¬ DroppedOnlyWhenCovered := by
 example : (match detectProtoclusters (withinSpec kfRec) kfRec kfRules with
     | .ok outs => outs.map (fun o => (o.pc.rule, o.pc.core, o.pc.loc, o.defs)) ==
         [("superior", Loc.simple ⟨110, 140, .fwd⟩, Loc.simple ⟨100, 150, .fwd⟩, [(1, ["s"])])]
+    | .error _ => false) = true := by decide +kernel
+
+/-- the ring hypotheses are satisfiable and the chains non-trivial: ring of length 1000, genes at
+    [300,320) [340,360) [400,420), cutoff 25 (gaps 20 and 40) -/
+def ringRec : Rec := ⟨1000, true,
+  [⟨0, .simple ⟨300, 320, .fwd⟩, [("a", 0)], true⟩, ⟨1, .simple ⟨340, 360, .rev⟩, [("a", 0)], true⟩,
+   ⟨2, .simple ⟨400, 420, .fwd⟩, [("a", 0)], true⟩]⟩
+example : InnerArc ringRec.len 25 300 420 := ⟨by decide, by decide, by decide, by decide⟩
+example : ∀ g ∈ ringRec.genes, GeneIn ringRec.len 300 420 g.loc := by
+  intro g hg
+  simp only [ringRec, List.mem_cons, List.mem_nil_iff, or_false] at hg
+  rcases hg with rfl | rfl | rfl <;>
+    exact ⟨⟨by simp [Loc.parts], by simp [bridgesOrigin], by intro p hp; simp [Loc.parts] at hp; subst hp; simp [ringRec]⟩,
+      by simp [Loc.start], by simp [Loc.end]⟩
+example : (match findCores ringRec 25 (ringRec.genes.map (·.loc)) with
+    | .ok cores => cores.map (fun c => (c.start, c.end)) == [(300, 360), (400, 420)]
     | .error _ => false) = true := by decide +kernel
 
 /-- EXTENDERS, non-trivially: anchor `a` at [3006,3008), extender genes `x` at [2005,2007) (999 bases
